@@ -47,7 +47,7 @@ BOUNDS = {
         (2, 160, ("none", "ws", "ws_loud", "cm2", "both", "ws_choice", "cm1"), ("P1", "P2", "P3"), MODS),
         (2, 160, ("ws", "ws_loud", "both"), ("P4", "P5"), MODS),
         (2, 160, ("ws_pairs",), ("P1", "P4"), ("", "@", "!")),
-        (2, 160, ("both_overlap", "cm_nonatomic"), ("P1",), ("", "@", "!")),
+        (2, 160, ("both_overlap", "cm_nonatomic", "both_seq"), ("P1",), ("", "@", "!")),
         (3, 45, ("ws", "cm2", "both_loud"), ("P1", "P3"), ("", "@", "!")),
     ],
     "thorough": [
@@ -140,7 +140,7 @@ def backtrack_specs(tier: str):
     implicit trivia is or is not allowed: atomic depth and pair hiding must be exactly what they were before the abandoned call."""
     S, R = families.S, families.R
     out = []
-    bodies = {"a": S("a"), "a a?": ("seq", (S("a"), ("opt", S("a")))), "w a": ("seq", (R("w"), S("a")))}
+    bodies = {"a": S("a"), "a a?": ("seq", (S("a"), ("opt", S("a")))), "w a": ("seq", (R("w"), S("a"))), "a a": ("seq", (S("a"), S("a")))}
     helpers = []
     for hm in ("", "_", "@", "$", "!"):
         for bi, (bl, hb) in enumerate(bodies.items()):
@@ -154,6 +154,19 @@ def backtrack_specs(tier: str):
                         ("seq", (("star", ("grp", ("seq", (H, S("!"))))), H)), ("grp", ("alt", (("seq", (H, H, S("!"))), H)))):
             for m0 in ("", "@", "$", "!"):
                 starts.append((f"r{len(starts)}", m0, ("seq", (wrapped, tail))))
+    # the SAME rule reached first through a wrapper rule with another atomicity (where it fails only because trivia is not allowed there),
+    # then plainly at the same position: nothing remembered about the first attempt may decide the second
+    wrappers = []
+    for h in helpers[:-1]:
+        for wm in ("@", "$", "!"):
+            wrappers.append((f"w{len(wrappers)}", wm, ("seq", (R(h[0]), S("!")))))
+            wname = wrappers[-1][0]
+            short = ("opt", S("b"))      # a short tail: the interesting inputs are three characters long ("a a")
+            for m0 in ("", "@", "!"):
+                starts.append((f"r{len(starts)}", m0, ("seq", (("grp", ("alt", (R(wname), R(h[0])))), short))))
+                starts.append((f"r{len(starts)}", m0, ("seq", (("not", R(wname)), R(h[0]), short))))
+                starts.append((f"r{len(starts)}", m0, ("seq", (("opt", R(wname)), R(h[0]), short))))
+    helpers = helpers + tuple(wrappers)
     for tv, sigma, L in (("ws", "ab ", 5 if tier == "thorough" else 4), ("ws_loud", "ab ", 4)):
         ins = families.inputs(sigma, L)
         for i in range(0, len(starts), BATCH):
@@ -171,7 +184,7 @@ def run(tier: str) -> int:
              "x every input over {a,b}+trivia symbols up to length L, in all four modes against the reference model; start rules are batched 40 per grammar and failing cases are re-run on the isolated rule; "
              "a case is non-trivial when the reference run backtracked (incl. giving back trivia) or returned pairs" + families.EXTRA_RULE_TEXT + families.SKIP_RULE_TEXT + families.EXPLICIT_RULE_TEXT + families.RECURSIVE_RULE_TEXT + " (under implicit WHITESPACE, with rule references and with stack operations)" + "; plus nested trivia: WHITESPACE = _{ \" \" | g } with g = !{ \"(\" ~ \")\" }, and a non-silent COMMENT = { \"(\" ~ w ~ \")\" } with w = !{ \"a\" ~ \"a\"* }, under six bodies x normal/@/! on every input over {a,b,blank,(,)} up to length 5"
              "; plus composed contexts: outer(inner(terminal)) for every terminal of the full set (literals, built-ins, stack operations, tagged terms) and every pair of 13 contexts (thorough: 30), under WHITESPACE and under a one-character COMMENT"
-             "; plus atomic-backtrack: 15 helper rules (modifier normal/_/@/$/! x three bodies) called inside an abandoned alternative, an abandoned optional, & , !, an abandoned repetition iteration "
+             "; plus atomic-backtrack (also: the same helper first reached through an @ / $ / ! wrapper rule that then fails, then plainly at the same position): 20 helper rules (modifier normal/_/@/$/! x four bodies) called inside an abandoned alternative, an abandoned optional, & , !, an abandoned repetition iteration "
              "and twice in an abandoned sequence, then called again and followed by \"b\" ~ \"b\", from normal/@/$/! start rules, with silent and non-silent WHITESPACE" + " (zero counts are UNSPEC for the model: judged on 'no foreign exception' only)",
         assumptions=["helper packs are fixed (five), not enumerated", "tags are not modelled"],
     )
